@@ -317,6 +317,7 @@ func (tx *TransactionImpl) IsReadOnly() bool {
 // releaseReadLock safely releases the read lock for read-only transactions
 func (tx *TransactionImpl) releaseReadLock() {
 	if tx.hasReadLock.CompareAndSwap(true, false) {
+		verifhook.At1("tx.unlocking", 0)
 		tx.rwLock.RUnlock()
 		verifhook.At1("tx.unlock", 0)
 	}
@@ -325,6 +326,7 @@ func (tx *TransactionImpl) releaseReadLock() {
 // releaseWriteLock safely releases the write lock for read-write transactions
 func (tx *TransactionImpl) releaseWriteLock() {
 	if tx.hasWriteLock.CompareAndSwap(true, false) {
+		verifhook.At1("tx.unlocking", 1)
 		tx.rwLock.Unlock()
 		verifhook.At1("tx.unlock", 1)
 	}
